@@ -1,6 +1,7 @@
 from __future__ import annotations
 
 from collections.abc import Iterable, Iterator
+from copy import deepcopy
 from dataclasses import InitVar, dataclass, field
 from functools import reduce
 from pathlib import Path
@@ -206,22 +207,23 @@ class SigmaCollection:
                         parsed_rules.append(parsed_filter_rule)
                         errors.extend(parsed_filter_rule.errors)  # Propagate errors from rule
                     else:  # merge with global rule and parse as simple rule
+                        # the documents passed by the caller are left as they are
+                        merged_rule = deep_dict_update(deepcopy(rule), global_rule)
                         parsed_merged_rule = SigmaRule.from_dict(
-                            deep_dict_update(rule, global_rule), collect_errors, source
+                            merged_rule, collect_errors, source
                         )
                         parsed_rules.append(parsed_merged_rule)
                         errors.extend(parsed_merged_rule.errors)  # Propagate errors from rule
-                        prev_rule = rule
+                        prev_rule = merged_rule
                 elif action == "global":  # set global rule template
-                    del rule["action"]
-                    global_rule = rule
+                    global_rule = {k: v for k, v in rule.items() if k != "action"}
                     prev_rule = global_rule
                 elif action == "reset":  # remove global rule
                     global_rule = dict()
                 elif (
                     action == "repeat"
                 ):  # add content of current rule to previous rule and parse it
-                    prev_rule = deep_dict_update(prev_rule, rule)
+                    prev_rule = deep_dict_update(deepcopy(prev_rule), rule)
                     parsed_rule = SigmaRule.from_dict(prev_rule, collect_errors, source)
                     parsed_rules.append(parsed_rule)
                     errors.extend(parsed_rule.errors)  # Propagate errors from rule
